@@ -185,6 +185,27 @@ def written_units(ctx):
         ctx.outcome("written-units", f"{name}:prescribed-unit" if found else f"{name}:WRONG")
         if not found:
             ctx.violation("units", f"written:{name}:coordinates-not-in-prescribed-unit", {"format": name}, f"{name}: the first atom's coordinates {want.tolist()} ({'angstrom' if unit == ANG else 'bohr/fractional'}) do not appear in the written file")
+    # masses in a written FCHK file are in amu - also on a repeated dump of the same object
+    import attrs
+
+    spec = roundtrip.all_specs()["fchk"]
+    obj, dkw, _ = spec.build({n: m[0] for n, m in spec.space}, ctx.seed)
+    masses_amu = np.array([15.99491, 1.00783])[: obj.natom]
+    obj = attrs.evolve(obj, atmasses=masses_amu * units.amu)
+    for attempt in (1, 2):
+        ctx.count()
+        ctx.nontrivial(("written-masses", attempt))
+        path = str(tmp / "masses.fchk")
+        with warnings.catch_warnings():
+            warnings.simplefilter("ignore")
+            dump_one(obj, path)
+        text = open(path).read()
+        blk = text.split("Real atomic weights")[1].split("\n")[1].split()
+        got = np.array([float(x) for x in blk[: obj.natom]])
+        ok = np.abs(got - masses_amu).max() < 1e-6
+        ctx.outcome("written-units", f"fchk-masses-dump{attempt}:amu" if ok else f"fchk-masses-dump{attempt}:WRONG")
+        if not ok:
+            ctx.violation("units", f"written:fchk:masses-not-in-amu:dump{attempt}", {"format": "fchk", "dump": attempt}, f"FCHK 'Real atomic weights' of dump {attempt}: {got.tolist()}, expected {masses_amu.tolist()} amu")
     for prog in ("gaussian", "orca"):
         ctx.count()
         from iodata import IOData
